@@ -30,7 +30,7 @@ class C02(RS.StepProp):
     corr_fn = 'C02Check.corr_ok'
     fail_fn = 'C02Check.prop_fail'
     quick_cases = 150
-    thorough_cases = 3000
+    thorough_cases = 1200
     extended_cases = 600
     fail_text = {1: 'a fine node has an empty fragid or one that is not a coarse node key',
                  2: "a coarse node's graph is not exactly the sub-graph of the fine nodes recording it",
